@@ -43,6 +43,8 @@ class C07Episode(Episode):
                    'warmup_delay': int(o.get('warmup_delay', 0))}
             if o.get('use_sockets'):
                 ent['use_sockets'] = True
+            if o.get('shell'):
+                ent['shell'] = True
             if o.get('stdin_socket'):
                 ent['stdin_socket'] = o['stdin_socket']
             ws.append(ent)
@@ -390,6 +392,10 @@ class C07(Prop):
                 refs.append('--fd-%s=%s' % (n, ref % nm))
             wc['cmd'] = 'worker --marker=%s %s' % (wc['marker'],
                                                    ' '.join(refs))
+            if rng.random() < 0.15:
+                # run through a shell: the references are substituted before
+                # the command line is handed to sh -c
+                wc['opts']['shell'] = True
             if rng.random() < 0.3:
                 # the socket as the worker's stdin (inetd style): with or
                 # without use_sockets, nothing else may come along
